@@ -390,8 +390,132 @@ func genHistory(t *rapid.T) history {
 	return h
 }
 
+// slow consumer: the application's event callback is still busy with event 1 when event 2 arrives and the stop signal is
+// given; the callback returns `hold` later. The library must neither crash nor deliver anything twice or out of order,
+// Listen must return nil once the callback is done, and the address must be free again.
+type slowCase struct {
+	HoldMs int `json:"hold_ms"`
+	Extra  int `json:"extra"` // datagrams sent while the callback is blocked
+}
+
+type slowRec struct {
+	mu      sync.Mutex
+	indices []uint32
+	release chan struct{}
+	entered chan struct{}
+	first   bool
+}
+
+func (r *slowRec) OnConnected() {}
+func (r *slowRec) OnEvent(s *types.Status) {
+	r.mu.Lock()
+	r.indices = append(r.indices, s.Event.Index)
+	block := !r.first
+	r.first = true
+	r.mu.Unlock()
+	if block {
+		close(r.entered)
+		<-r.release
+	}
+}
+func (r *slowRec) OnError(error) bool { return true }
+
+func checkSlow(c slowCase) *rp.Fail {
+	ev.Case("slow-consumer-at-stop", true, fmt.Sprint(c))
+	port, err := farm.FreePort([4]byte{127, 0, 0, 1})
+	if err != nil {
+		return nil
+	}
+	dest := &net.UDPAddr{IP: net.IPv4(127, 0, 0, 1), Port: int(port)}
+	sender, err := net.DialUDP("udp4", nil, dest)
+	if err != nil {
+		return nil
+	}
+	defer sender.Close()
+	u := hook.Real(hook.ClientCfg{HasListen: true, ListenIP: [4]byte{127, 0, 0, 1}, ListenPort: port})
+	rec := &slowRec{release: make(chan struct{}), entered: make(chan struct{})}
+	q := make(chan os.Signal)
+	done := make(chan error, 1)
+	go func() { done <- u.Listen(rec, q) }()
+	event := func(index uint32) []byte {
+		b := make([]byte, 64)
+		spec.Header(b, 0x17, 0x20, 405419896)
+		spec.PutLE32(b[8:], index)
+		b[12] = 1
+		return b
+	}
+	// event 1 (retry until the listener is bound)
+	deadline := time.Now().Add(5 * time.Second)
+	for entered := false; !entered; {
+		sender.Write(event(1))
+		select {
+		case <-rec.entered:
+			entered = true
+		case <-time.After(20 * time.Millisecond):
+			if time.Now().After(deadline) {
+				close(q)
+				return rp.Failf("uhppote.Listen/missing-callbacks", "no event callback within 5 s")
+			}
+		}
+	}
+	for i := 0; i < c.Extra; i++ {
+		sender.Write(event(uint32(2 + i)))
+	}
+	time.Sleep(5 * time.Millisecond) // the read loop has picked up the next datagram by now
+	close(q)
+	time.Sleep(time.Duration(c.HoldMs) * time.Millisecond)
+	close(rec.release)
+	select {
+	case err := <-done:
+		if err != nil {
+			return rp.Failf("uhppote.Listen/stop-error", "Listen returned %v after the stop signal (slow consumer)", err)
+		}
+	case <-time.After(6 * time.Second):
+		return rp.Failf("uhppote.Listen/does-not-stop", "Listen has not returned 6 s after the slow callback finished")
+	}
+	time.Sleep(20 * time.Millisecond) // a late panic in a library goroutine would kill the process here
+	if l, err := net.ListenUDP("udp4", dest); err != nil {
+		return rp.Failf("uhppote.Listen/address-still-bound", "listen address not free after Listen returned (slow consumer): %v", err)
+	} else {
+		l.Close()
+	}
+	rec.mu.Lock()
+	got := append([]uint32(nil), rec.indices...)
+	rec.mu.Unlock()
+	// delivered events: event 1 possibly several times (it was re-sent until the listener was up), then a prefix-ordered,
+	// duplicate-free subsequence of 2..n
+	last := uint32(1)
+	for _, ix := range got {
+		if ix == 1 && last == 1 {
+			continue
+		}
+		if ix <= last {
+			return rp.Failf("uhppote.Listen/order-or-duplicate", "events delivered around a stop with a slow consumer: %v (sent 1, then 2..%d in order)", got, 1+c.Extra)
+		}
+		last = ix
+	}
+	return nil
+}
+
 func props() []rp.Prop {
-	return []rp.Prop{rp.P[history]{Name: "listener", Checks: ev.Pick(400, 12000) / ev.Shards(), Gen: genHistory, Check: check}}
+	slowSweep := func(yield func(slowCase) bool) {
+		cases := []slowCase{{HoldMs: 30, Extra: 1}, {HoldMs: 120, Extra: 3}, {HoldMs: 0, Extra: 2}}
+		if ev.Thorough() {
+			// one long hold per shard: longer than any grace period a shutdown path might use
+			cases = append(cases, slowCase{HoldMs: 3200, Extra: 2}, slowCase{HoldMs: 700, Extra: 8})
+		} else if ev.Shard() == 0 {
+			cases = append(cases, slowCase{HoldMs: 3200, Extra: 2})
+		}
+		for _, c := range cases {
+			if !yield(c) {
+				return
+			}
+		}
+	}
+	return []rp.Prop{
+		rp.P[history]{Name: "listener", Checks: ev.Pick(400, 12000) / ev.Shards(), Gen: genHistory, Check: check},
+		rp.P[slowCase]{Name: "slow-consumer", Sweep: slowSweep, Check: checkSlow},
+	}
 }
 
 func TestC10(t *testing.T)    { rp.RunAll(t, props()...) }
